@@ -777,6 +777,11 @@ def inline_private_helpers(tree):
                     continue
                 pre, newret = rep
 
+                # (rules that ask "does this value come from h()?" still
+                # get their answer: the expression remembers its origin)
+                newret._inlined_from = (
+                    "self." + key[1] if key[0] is not None else key[1])
+
                 class Put(ast.NodeTransformer):
                     def visit_Call(self, nd):
                         if nd is c:
